@@ -5,26 +5,26 @@ import json, os
 ROOT = os.path.dirname(os.path.abspath(__file__))
 
 CLAIMED = {
- "C01": dict(engine="reasm-seq", design="§4 C01", technique="deterministic simulation: seeded record-stream fault injection (loss/dup/reorder/delay/restart) over a real Reassembler under a virtual clock, exactly-once/grouping oracle over the recorded history",
+ "C01": dict(engine="reasm-seq", design="§4 C01", technique="deterministic simulation: seeded record-stream fault injection (loss/dup/reorder/delay/restart) over a real Reassembler under a virtual clock, exactly-once/grouping oracle over the recorded history; plus the concurrent/re-entrant engine and the whole-library pipeline (kernel stream -> socket -> Receive -> Push -> Stream) for the delivery verdicts",
    text="Seeded exploration of single-goroutine call histories (PushMessage/Push/Maintain/sleep/Close) with stream faults under a virtual clock; every delivered group is checked against a reference model of what was pushed (exactly once, one sequence per group, push order, no split). Sampling, not proof; millions of distinct histories per quick run.",
-   note="Trusts the Go runtime, testing/synctest and the oracle's model of 'buffered instance'. Histories <= ~60 ops, all sequence numbers inside one 2^24 window; post-Close pushes are only judged for safety."),
+   note="Trusts the Go runtime, testing/synctest and the oracle's model of 'buffered instance'. Histories <= ~60 ops, all sequence numbers inside one 2^24 window; 'delivered by the end' is required for what was pushed before Close, everything else is judged for the whole history. 2 of 8 quick workers run the concurrent engine (re-entrant callbacks, ticker), 1 the pipeline."),
  "C02": dict(engine="reasm-seq", design="§4 C02", technique="deterministic simulation: seeded disorder/late-arrival/roll-over histories, ordering oracle using window offsets as ground truth",
    text="Same engine as C01 tilted towards disorder larger than the buffer, late arrivals and windows straddling 2^32; the oracle orders events by the plan's window offsets (never by the library's comparison) and applies the late-arrival exception literally.",
    note="Single goroutine only (as the property states). Sequence numbers of one history lie in one window of span <= 2^24-1."),
  "C03": dict(engine="reasm-seq", design="§4 C03", technique="deterministic simulation: gap/late/duplicate/restart stream faults, running EventsLost sum compared with a gap model after every call",
    text="Per call, the sum of the counts passed to EventsLost is compared with the number of window offsets skipped by the in-order events that call delivered; counts must be positive. Found the uint32 / sequence-0 defect (fixed in /repo).",
    note="Model: 'last' = highest offset delivered so far; late or duplicate deliveries add nothing. Calls after Close are not judged."),
- "C10": dict(engine="reasm-seq", design="§4 C10", technique="deterministic simulation: virtual-time histories with boundary sleeps (timeout-1ns, timeout, timeout+1ns), occupancy and eviction-cause oracle",
+ "C10": dict(engine="reasm-seq", design="§4 C10", technique="deterministic simulation: virtual-time histories with boundary sleeps (timeout-1ns, timeout, timeout+1ns), occupancy and eviction-cause oracle; re-entrant/concurrent engine for the delivery verdicts",
    text="The harness reconstructs the buffered set from pushes and callbacks with exact virtual creation times; after each push the occupancy bound and 'oldest is not complete' are checked, and every delivery outside Close must have a cause (complete, overflow, or elapsed timeout).",
    note="'Complete' = holds a record of type 1327, <1300 or >=2100, or EOE (1320) arrived while buffered. Equality at the exact expiry instant is tolerated both ways."),
- "C19": dict(engine="reasm-seq", design="§4 C19", technique="deterministic simulation: exact virtual clock (testing/synctest), sleep/Maintain/Close histories over all timeout classes, expiry and post-Close oracle",
+ "C19": dict(engine="reasm-seq", design="§4 C19", technique="deterministic simulation: exact virtual clock (testing/synctest), sleep/Maintain/Close histories over all timeout classes, expiry and post-Close oracle, counterfactual re-run with another timeout to decide 'on account of time'; ticker/re-entrant engine for the delivery verdicts",
    text="After every Maintain/PushMessage at virtual time t the oldest buffered event must not be strictly past its expiry; no incomplete event is delivered before its timeout without overflow; Close flushes everything once, in order; Maintain/second Close fail afterwards and deliver nothing; nil Stream is rejected.",
    note="Timeout classes -1s, 0, 1ms, 50ms, 2s, 1h, MaxInt64; time is virtual, so boundary cases are exact. The concurrent ticker variant lives in C11's engine."),
 }
 
 
 CLAIMED.update({
- "C11": dict(engine="reasm-conc", design="§4 C11", technique="deterministic simulation: seeded scheduler releasing one task at a time at yield hooks inside PushMessage/Maintain/Close and inside callbacks, re-entrant callbacks, deadlock detector, race detector with the scheduler's hand-offs hidden",
+ "C11": dict(engine="reasm-conc", design="§4 C11", technique="deterministic simulation: seeded scheduler releasing one task at a time at yield hooks and at statement-level pre-emption points (AST-instrumented copy of the tree) inside PushMessage/Maintain/Close, inside critical sections and inside callbacks; re-entrant callbacks, deadlock detector, race detector with the scheduler's hand-offs hidden; whole-library pipeline",
    text="2-4 tasks with short Push/Maintain/Close programs (plus a Maintain ticker and callbacks that re-enter the Reassembler) are interleaved by a seeded tape at the Reassembler's internal step boundaries; oracle: no race-detector report with a library frame, no deadlock, at-most-once delivery, exactly-once for every push that returned before the winning Close was invoked, exactly one Close returns nil.",
    note="Interleavings at yield-hook granularity (verif build tag); finer races rely on TSan, which sees every memory access but none of the scheduler's own synchronisation. Deadlocked runs abandon the worker process and are minimised with child processes."),
  "C08": dict(engine="client", design="§4 C08", technique="deterministic simulation: real AuditClient against SimKernel (independent reference model) with injected errnos, unsolicited seq-0 records at every position, EINTR/EAGAIN runs up to 9, delayed and stale replies; per-request ledger oracle",
@@ -33,10 +33,10 @@ CLAIMED.update({
  "C16": dict(engine="client", design="§4 C16", technique="deterministic simulation: SimKernel decodes every AUDIT_SET/AUDIT_GET datagram at fixed UAPI offsets with its own constants; reply-size (kernel version), truncation and padding faults; FromWireFormat on poisoned buffers",
    text="Each setter must put exactly one 44-byte AUDIT_SET with flags 0x5, the single UAPI mask bit and value on the wire (failure modes by exported name must arrive as 0/1/2); GetStatus must return the words the kernel laid out for every reply size >= 32, reject shorter ones with io.ErrUnexpectedEOF and never show bytes from outside the datagram. Two open known findings (LogOnFailure/PanicOnFailure are 0).",
    note="No schedule in this property; the simulator contributes the independent peer and the reply-size/truncation fault space. AuditStatusLost, AuditGet, AuditSet are compared statically (no setter exercises them)."),
- "C17": dict(engine="client", design="§4 C17", technique="deterministic simulation: NoWait/WaitForReply histories against SimKernel's ACK ledger, repeated and concurrent Close under the seeded scheduler (socket calls are scheduling points), shared poisoned receive buffer",
+ "C17": dict(engine="client", design="§4 C17", technique="deterministic simulation: NoWait/WaitForReply histories against SimKernel's ACK ledger with errno, unsolicited-record, EINTR/EAGAIN and sendto-failure faults; repeated and concurrent Close under the seeded scheduler (socket calls and statement-level points are scheduling points), shared poisoned receive buffer",
    text="ACK ledger: every NoWait request's ACK is consumed exactly once, in send order, only by WaitForPendingACKs, which stops at the first kernel error and never polls for ACKs that are not outstanding; the socket is closed exactly once over all sequential and concurrent Close calls, with one AUDIT_SET{PID=0} iff SetPID was used; slices returned by GetRules still equal the kernel's copy at the end of the run. Found the re-wait defect (fixed).",
    note="Waiting calls are only issued when no NoWait ACK is outstanding (documented usage); concurrent phase runs Close only (the client promises nothing else concurrently)."),
- "C18": dict(engine="client", design="§4 C18", technique="deterministic simulation: real NetlinkClient over the verif socket seam, 1-4 sender tasks interleaved at sendto, porcupine linearizability of the sequence counter, datagrams of every length/sender injected into Receive",
+ "C18": dict(engine="client", design="§4 C18", technique="deterministic simulation: real NetlinkClient over the verif socket seam, 1-4 sender tasks interleaved at sendto and at statement-level points, porcupine linearizability of the sequence counter, datagrams of every length/sender (foreign port ids incl. >= 2^31, group masks, non-netlink) injected into Receive, two independent clients receiving in different tasks",
    text="Wire bytes of every Send are decoded independently (length, type, flags, port id, sequence == returned value, payload, destination); the Send history of concurrent tasks is checked with porcupine against a counter model and by the race detector; Receive must return kernel datagrams unchanged and reject short, foreign-port and non-netlink ones without data; the audit parser is checked through AuditClient.Receive on both transports.",
    note="Socket creation/bind/port-id discovery and a real kernel are stubs. Payload 0..8970, datagrams 0..64 bytes plus random longer ones."),
  "C15": dict(engine="coalesce-pool", design="§4 C15", technique="deterministic simulation: pool of message groups and previously returned events, 1-3 tasks issuing Coalesce/ResolveIDs/clock-advance operations under the seeded scheduler, pristine-twin and snapshot oracles, race detector",
@@ -84,7 +84,7 @@ def main():
         setup_cmd="./check build",
         hooks=dict(
             guard="verif",
-            enable="go1.26.8 test -c -tags verif (harness module /verif/sim with replace github.com/elastic/go-libaudit/v2 => /repo)",
+            enable="go1.26.8 test -c -tags verif; the harness module /verif/sim is built against a copy of /repo's current working tree into which sim/cmd/instrument has inserted statement-level verifYield calls (plain /repo if that fails)",
             baseline_off_cmd="cd /repo && GOFLAGS=-mod=mod go test -json -vet=off -count=1 -timeout 25m ./...",
             source_commits=hooks_commits,
             add_only=True,
@@ -92,10 +92,12 @@ def main():
         engines=[
             dict(name="reasm-seq", path="/verif/sim/engines/reasm_seq.go", serves_properties=["C01", "C02", "C03", "C10", "C19"],
                  kind_free_text="single driver goroutine, real Reassembler, virtual clock, stream-fault injector, history oracles"),
-            dict(name="reasm-conc", path="/verif/sim/engines/reasm_conc.go", serves_properties=["C11"],
-                 kind_free_text="2-4 tasks under the seeded scheduler with yield hooks inside the Reassembler, re-entrant callbacks, race detector with hidden hand-offs"),
+            dict(name="reasm-conc", path="/verif/sim/engines/reasm_conc.go", serves_properties=["C11", "C01", "C10", "C19"],
+                 kind_free_text="2-4 tasks under the seeded scheduler with yield hooks and statement-level points inside the Reassembler, re-entrant callbacks, ticker, race detector with hidden hand-offs (C01/C10/C19: delivery verdicts only)"),
             dict(name="client", path="/verif/sim/engines/client.go", serves_properties=["C08", "C16", "C17", "C18"],
                  kind_free_text="real AuditClient / NetlinkClient against SimKernel (independent UAPI reference model) with errno, unsolicited-event, EINTR/EAGAIN, stale/short/spoofed datagram faults"),
+            dict(name="pipeline", path="/verif/sim/engines/pipeline.go", serves_properties=["C01", "C11"],
+                 kind_free_text="whole library in one process: SimKernel record stream -> SimSocket -> NetlinkClient/AuditClient.Receive -> Reassembler.Push -> Stream -> CoalesceMessages, with ticker and closer tasks"),
             dict(name="coalesce-pool", path="/verif/sim/engines/coalesce.go", serves_properties=["C15"],
                  kind_free_text="pool of message groups and previously returned events, tasks issuing Coalesce/ResolveIDs, pristine-twin oracle, race detector"),
         ],
